@@ -25,52 +25,71 @@ Proof.
   - rewrite strip_prefix_none by reflexivity. rewrite strip_prefix_app. reflexivity.
 Qed.
 
-Lemma parse_edge_tok_num z : parse_edge_tok (Z_to_string z) = Some (Some z).
+Lemma parse_edge_tok_num z : parse_edge_tok (Z_to_string z) = Some (Some (OInt z)).
 Proof. unfold parse_edge_tok. rewrite Z_round_trip, String.eqb_refl. reflexivity. Qed.
 
-Lemma parse_bound_app b r : parse_bound (render_bound b ++ r) = Some (b, r).
+Lemma raw_ok_parts s : raw_ok s = true ->
+  is_int_text s = false /\ match s with String c _ => num_start_char c | EmptyString => false end = true
+  /\ nochar " " s = true /\ nochar "(" s = true /\ nochar ")" s = true.
 Proof.
-  destruct b as [|d v]; unfold parse_bound, render_bound.
+  unfold raw_ok. intros H. apply andb_prop in H as [H H5]. apply andb_prop in H as [H H4]. apply andb_prop in H as [H H3].
+  apply andb_prop in H as [H1 H2]. apply negb_true_iff in H1. auto.
+Qed.
+
+Lemma parse_edge_tok_raw s : raw_ok s = true -> parse_edge_tok s = Some (Some (ORaw s)).
+Proof.
+  intros H. destruct (raw_ok_parts s H) as [Hi _]. unfold parse_edge_tok. unfold is_int_text in Hi.
+  destruct (Z_of_string s) as [z|].
+  - rewrite Hi, H. reflexivity.
+  - destruct (String.eqb s "UNBOUNDED") eqn:E; [|rewrite H; reflexivity].
+    apply String.eqb_eq in E. subst. vm_compute in H. discriminate.
+Qed.
+
+Lemma parse_bound_app b r : bound_ok b = true -> parse_bound (render_bound b ++ r) = Some (b, r).
+Proof.
+  destruct b as [|d v]; unfold parse_bound, render_bound; intros Hok.
   - rewrite strip_prefix_app. reflexivity.
-  - unfold render_edge. cbn [fst snd]. destruct v as [n|].
+  - unfold render_edge. cbn [fst snd]. destruct v as [[n|s]|]; cbn [offset_text].
     + rewrite strip_prefix_none.
       2:{ rewrite !sapp_assoc. apply numeric_not_prefix; auto using numeric_Z. }
       rewrite !sapp_assoc. change (" " ++ dir_text d ++ r) with (String " " (dir_text d ++ r)).
       rewrite split_char_app by (apply numeric_nospace, numeric_Z).
       rewrite parse_edge_tok_num, parse_dir_app. reflexivity.
+    + cbn in Hok. destruct (raw_ok_parts s Hok) as [_ [Hs [Hsp _]]].
+      rewrite strip_prefix_none.
+      2:{ rewrite !sapp_assoc. apply num_start_not_prefix; auto. }
+      rewrite !sapp_assoc. change (" " ++ dir_text d ++ r) with (String " " (dir_text d ++ r)).
+      rewrite split_char_app by exact Hsp.
+      rewrite parse_edge_tok_raw by exact Hok. rewrite parse_dir_app. reflexivity.
     + rewrite strip_prefix_none by reflexivity.
       rewrite !sapp_assoc. change (" " ++ dir_text d ++ r) with (String " " (dir_text d ++ r)).
       rewrite split_char_app by reflexivity.
       rewrite parse_dir_app. reflexivity.
 Qed.
 
-Lemma denote_render_edge d v : denote_edge (render_edge (d, v)) = Some (d, v).
+Lemma denote_render_edge d v : offset_ok v = true -> denote_edge (render_edge (d, v)) = Some (d, v).
 Proof.
-  unfold denote_edge. pose proof (parse_bound_app (BEdge d v) "") as H.
+  intros Hok. unfold denote_edge. pose proof (parse_bound_app (BEdge d v) "" Hok) as H.
   cbn [render_bound] in H. rewrite sapp_nil_r in H. rewrite H. reflexivity.
 Qed.
 
-Lemma render_edge_inj e e' : render_edge e = render_edge e' -> e = e'.
+Lemma unbounded_only_none d v : offset_ok v = true -> (prefix "UNBOUNDED" (render_edge (d, v)) = true <-> v = None).
 Proof.
-  destruct e as [d v], e' as [d' v']. intros H.
-  pose proof (denote_render_edge d v) as A. rewrite H, denote_render_edge in A. congruence.
-Qed.
-
-Lemma unbounded_only_none d v : prefix "UNBOUNDED" (render_edge (d, v)) = true <-> v = None.
-Proof.
-  split.
-  - destruct v as [n|]; [|reflexivity]. intros H. exfalso.
-    unfold render_edge in H. cbn [fst snd] in H.
-    change (" " ++ dir_text d) with (String " " (dir_text d)) in H.
-    rewrite (numeric_not_prefix "U" "NBOUNDED" (Z_to_string n) (dir_text d)) in H; auto using numeric_Z. discriminate.
+  intros Hok. split.
+  - destruct v as [[n|s]|]; [| |reflexivity]; intros H; exfalso; unfold render_edge in H; cbn [fst snd offset_text] in H.
+    + change (" " ++ dir_text d) with (String " " (dir_text d)) in H.
+      rewrite (numeric_not_prefix "U" "NBOUNDED" (Z_to_string n) (dir_text d)) in H; auto using numeric_Z. discriminate.
+    + cbn in Hok. destruct (raw_ok_parts s Hok) as [_ [Hs _]].
+      rewrite (num_start_not_prefix "U" "NBOUNDED" s (" " ++ dir_text d)) in H; auto. discriminate.
   - intros ->. destruct d; reflexivity.
 Qed.
 
-Lemma bound_not_between b r : prefix "BETWEEN " (render_bound b ++ r) = false.
+Lemma bound_not_between b r : bound_ok b = true -> prefix "BETWEEN " (render_bound b ++ r) = false.
 Proof.
-  destruct b as [|d [n|]]; [reflexivity| |reflexivity].
-  unfold render_bound, render_edge. cbn [fst snd]. rewrite !sapp_assoc.
-  apply numeric_not_prefix; auto using numeric_Z.
+  destruct b as [|d [[n|s]|]]; intros Hok; [reflexivity| | |reflexivity];
+    unfold render_bound, render_edge; cbn [fst snd offset_text]; rewrite !sapp_assoc.
+  - apply numeric_not_prefix; auto using numeric_Z.
+  - cbn in Hok. destruct (raw_ok_parts s Hok) as [_ [Hs _]]. apply num_start_not_prefix; auto.
 Qed.
 
 Lemma kwp_hit W x : kwp W (" " ++ W ++ " " ++ x) = true.
@@ -92,16 +111,18 @@ Proof.
     change ("RANGE" ++ " " ++ x) with ("RANGE " ++ x). rewrite strip_prefix_app. reflexivity.
 Qed.
 
-Lemma parse_frame_app f r : parse_frame (render_frame f ++ r) = Some (f, r).
+Lemma parse_frame_app f r : frame_ok (Some f) = true -> parse_frame (render_frame f ++ r) = Some (f, r).
 Proof.
-  destruct f as [[k lo] [hi|]]; unfold parse_frame, render_frame.
-  - rewrite !sapp_assoc.
+  destruct f as [[k lo] [hi|]]; unfold parse_frame, render_frame; cbn [frame_ok]; intros Hok.
+  - apply andb_prop in Hok as [Hlo Hhi]. rewrite !sapp_assoc.
     change (" BETWEEN " ++ render_bound lo ++ " AND " ++ render_bound hi ++ r)
       with (" " ++ "BETWEEN " ++ render_bound lo ++ " AND " ++ render_bound hi ++ r).
-    rewrite parse_fkind_app. rewrite strip_prefix_app, parse_bound_app, strip_prefix_app, parse_bound_app.
+    rewrite parse_fkind_app. rewrite strip_prefix_app, parse_bound_app by exact Hlo.
+    rewrite strip_prefix_app, parse_bound_app by exact Hhi.
     reflexivity.
-  - rewrite !sapp_assoc. rewrite parse_fkind_app. rewrite strip_prefix_none by apply bound_not_between.
-    rewrite parse_bound_app. reflexivity.
+  - apply andb_prop in Hok as [Hlo _]. rewrite !sapp_assoc. rewrite parse_fkind_app.
+    rewrite strip_prefix_none by (apply bound_not_between; exact Hlo).
+    rewrite parse_bound_app by exact Hlo. reflexivity.
 Qed.
 
 Lemma frame_text_head f r : exists x, render_frame f ++ r = fkind_text (fst (fst f)) ++ " " ++ x.
@@ -167,11 +188,11 @@ Proof.
     cbn [List.app join]; rewrite ?sapp_assoc; reflexivity.
 Qed.
 
-Lemma parse_ftail_ok f rest : parse_ftail (frame_tail f (")" ++ rest)) = Some (f, rest).
+Lemma parse_ftail_ok f rest : frame_ok f = true -> parse_ftail (frame_tail f (")" ++ rest)) = Some (f, rest).
 Proof.
-  unfold parse_ftail, frame_tail. destruct f as [f|].
+  unfold parse_ftail, frame_tail. intros Hok. destruct f as [f|].
   - rewrite strip_prefix_none by reflexivity.
-    rewrite strip_prefix_app, parse_frame_app, strip_prefix_app. reflexivity.
+    rewrite strip_prefix_app, parse_frame_app by exact Hok. rewrite strip_prefix_app. reflexivity.
   - rewrite strip_prefix_app. reflexivity.
 Qed.
 
@@ -245,12 +266,12 @@ Proof.
 Qed.
 
 Lemma parse_window_ok fd rest :
-  forallb part_ok (fd_partition fd) = true -> forallb ord_ok (fd_orderbys fd) = true ->
+  forallb part_ok (fd_partition fd) = true -> forallb ord_ok (fd_orderbys fd) = true -> frame_ok (fd_frame fd) = true ->
   parse_window (partition_sql fd ++ ")" ++ rest) =
   Some ({| wa_partition := fd_partition fd; wa_order := fd_orderbys fd; wa_frame := fd_frame fd |}, rest).
 Proof.
-  intros Hp Ho. rewrite window_norm. unfold parse_window.
-  rewrite parse_part_ok by exact Hp. rewrite parse_ord_ok by exact Ho. rewrite parse_ftail_ok. reflexivity.
+  intros Hp Ho Hf. rewrite window_norm. unfold parse_window.
+  rewrite parse_part_ok by exact Hp. rewrite parse_ord_ok by exact Ho. rewrite parse_ftail_ok by exact Hf. reflexivity.
 Qed.
 
 (* ---- single opaque texts (special clause, filter criterion) ------------------------------- *)
@@ -265,12 +286,15 @@ Proof.
   - right. left. eexists. reflexivity.
 Qed.
 
-Lemma top_join_and fs : fs <> [] -> forallb filter_ok fs = true -> top 0 (join " AND " fs) = true.
+Lemma top_filters_text fs : fs <> [] -> forallb filter_ok fs = true -> top 0 (filters_text fs) = true.
 Proof.
-  induction fs as [|f fs IH]; intros Hne H; [congruence|].
-  cbn in H. apply andb_prop in H as [H1 H2]. destruct fs as [|g fs]; [exact H1|].
-  change (join " AND " (f :: g :: fs)) with (f ++ " AND " ++ join " AND " (g :: fs)).
-  apply top_app; [exact H1|]. apply (top_app " AND " 0); [reflexivity|]. apply IH; [discriminate|exact H2].
+  intros Hne H.
+  assert (J : top 0 (join " AND " (map crit_in_and fs)) = true).
+  { apply top_join; [reflexivity|]. clear Hne. induction fs as [|c fs IH]; [reflexivity|].
+    cbn in *. apply andb_prop in H as [H1 H2]. rewrite (IH H2), andb_true_r.
+    unfold crit_in_and, filter_ok in *. destruct (fst c); [|exact H1]. apply top_paren. apply top_bal. exact H1. }
+  unfold filters_text. destruct fs as [|c [|c' fs]]; [congruence| |exact J].
+  cbn in H. apply andb_prop in H as [H _]. exact H.
 Qed.
 
 (* ---- the whole call ------------------------------------------------------------------------ *)
@@ -279,7 +303,7 @@ Definition dpre (fd : func_desc) : string := if fd_distinct fd then "DISTINCT " 
 Definition sp_suffix (fd : func_desc) : string :=
   if truthy_ostr (fd_special fd) then " " ++ ostr (fd_special fd) else "".
 Definition filter_part (fd : func_desc) : string :=
-  if fd_include_filter fd then " FILTER(WHERE " ++ join " AND " (fd_filters fd) ++ ")" else "".
+  if fd_include_filter fd then " FILTER(WHERE " ++ filters_text (fd_filters fd) ++ ")" else "".
 Definition over_part (fd : func_desc) : string :=
   if fd_include_over fd then " OVER(" ++ partition_sql fd ++ ")" else "".
 Definition tail_part (t : option string) : string := match t with None => "" | Some x => " " ++ x end.
@@ -426,13 +450,14 @@ Lemma parse_tail_ok t : parse_tail (tail_part t) = Some t.
 Proof. destruct t; reflexivity. Qed.
 
 Lemma parse_over_ok fd t :
-  forallb part_ok (fd_partition fd) = true -> forallb ord_ok (fd_orderbys fd) = true -> tail_ok t = true ->
+  forallb part_ok (fd_partition fd) = true -> forallb ord_ok (fd_orderbys fd) = true -> frame_ok (fd_frame fd) = true ->
+  tail_ok t = true ->
   parse_over (over_part fd ++ tail_part t) =
   Some (if fd_include_over fd
         then Some {| wa_partition := fd_partition fd; wa_order := fd_orderbys fd; wa_frame := fd_frame fd |}
         else None, tail_part t).
 Proof.
-  intros Hp Ho Ht. unfold parse_over, over_part. destruct (fd_include_over fd).
+  intros Hp Ho Hfr Ht. unfold parse_over, over_part. destruct (fd_include_over fd).
   - rewrite !sapp_assoc, strip_prefix_app. rewrite parse_window_ok by assumption. reflexivity.
   - cbn [append]. destruct (tail_part_no_clause t Ht) as [_ ->]. reflexivity.
 Qed.
@@ -440,11 +465,11 @@ Qed.
 Lemma parse_filter_ok fd t :
   (fd_include_filter fd = true -> fd_filters fd <> []) -> forallb filter_ok (fd_filters fd) = true -> tail_ok t = true ->
   parse_filter (filter_part fd ++ over_part fd ++ tail_part t) =
-  Some (if fd_include_filter fd then Some (join " AND " (fd_filters fd)) else None, over_part fd ++ tail_part t).
+  Some (if fd_include_filter fd then Some (filters_text (fd_filters fd)) else None, over_part fd ++ tail_part t).
 Proof.
   intros Hne Hf Ht. unfold parse_filter, filter_part. destruct (fd_include_filter fd).
   - rewrite !sapp_assoc, strip_prefix_app. rewrite parse_single_ok; [reflexivity|].
-    apply top_join_and; auto.
+    apply top_filters_text; auto.
   - cbn [append]. rewrite strip_prefix_none; [reflexivity|].
     unfold over_part. destruct (fd_include_over fd); [reflexivity|]. cbn [append].
     destruct (tail_part_no_clause t Ht) as [E _]. unfold strip_prefix in E.
@@ -457,9 +482,13 @@ Lemma texts_ok_parts fd : texts_ok fd = true ->
   /\ forallb ord_ok (fd_orderbys fd) = true /\ fd_bare fd = false.
 Proof.
   unfold texts_ok. intros H.
-  apply andb_prop in H as [H H7]. apply andb_prop in H as [H H6]. apply andb_prop in H as [H H5].
+  apply andb_prop in H as [H H7]. apply andb_prop in H as [H H8]. apply andb_prop in H as [H H6]. apply andb_prop in H as [H H5].
   apply andb_prop in H as [H H4]. apply andb_prop in H as [H H3]. apply andb_prop in H as [H1 H2].
   apply negb_true_iff in H7. repeat split; assumption.
+Qed.
+Lemma texts_ok_frame fd : texts_ok fd = true -> frame_ok (fd_frame fd) = true.
+Proof.
+  unfold texts_ok. intros H. apply andb_prop in H as [H _]. apply andb_prop in H as [_ H]. exact H.
 Qed.
 Lemma combo_ok_parts fd : combo_ok fd = true ->
   (fd_include_filter fd = true -> fd_filters fd <> []) /\ (is_some (fd_frame fd) = true -> fd_include_over fd = true).
@@ -476,7 +505,7 @@ Theorem render_parse o fd args :
 Proof.
   intros Ht Hc Ha Htl.
   destruct (texts_ok_parts fd Ht) as [Hn [Hsc [Hsp [Hfl [Hpa [Hor Hb]]]]]].
-  destruct (combo_ok_parts fd Hc) as [Hne Hfr].
+  destruct (combo_ok_parts fd Hc) as [Hne Hfr]. pose proof (texts_ok_frame fd Ht) as Hfok.
   eexists. split; [apply get_sql_norm; assumption|].
   destruct (parse_qname_ok fd Hn Hsc) as [Hq Hnp].
   replace (schema_part fd ++ call_text fd args ++ tail_part (tail_text o fd))
@@ -520,17 +549,19 @@ Proof.
     cbn [nochar]. rewrite (IH H2), andb_true_r. destruct (Ascii.eqb c ")") eqn:E; [|reflexivity].
     apply Ascii.eqb_eq in E. subst. vm_compute in H1. discriminate.
 Qed.
-Lemma bal_bound b : bal 0 (render_bound b) = true.
+Lemma bal_bound b : bound_ok b = true -> bal 0 (render_bound b) = true.
 Proof.
-  destruct b as [|d [n|]]; [reflexivity| |destruct d; reflexivity].
-  unfold render_bound, render_edge. cbn [fst snd]. apply bal_app; [apply bal_numeric, numeric_Z|destruct d; reflexivity].
+  destruct b as [|d [[n|s]|]]; intros Hok; [reflexivity| | |destruct d; reflexivity];
+    unfold render_bound, render_edge; cbn [fst snd offset_text]; (apply bal_app; [|destruct d; reflexivity]).
+  - apply bal_numeric, numeric_Z.
+  - cbn in Hok. destruct (raw_ok_parts s Hok) as [_ [_ [_ [A B]]]]. apply bal_nochar; assumption.
 Qed.
-Lemma bal_frame f : bal 0 (render_frame f) = true.
+Lemma bal_frame f : frame_ok (Some f) = true -> bal 0 (render_frame f) = true.
 Proof.
-  destruct f as [[k lo] [hi|]]; unfold render_frame.
+  destruct f as [[k lo] [hi|]]; unfold render_frame; cbn [frame_ok]; intros Hok; apply andb_prop in Hok as [Hlo Hhi].
   - apply bal_app; [destruct k; reflexivity|]. apply (bal_app " BETWEEN "); [reflexivity|].
-    apply bal_app; [apply bal_bound|]. apply (bal_app " AND "); [reflexivity|apply bal_bound].
-  - apply bal_app; [destruct k; reflexivity|]. apply (bal_app " "); [reflexivity|apply bal_bound].
+    apply bal_app; [apply bal_bound; exact Hlo|]. apply (bal_app " AND "); [reflexivity|apply bal_bound; exact Hhi].
+  - apply bal_app; [destruct k; reflexivity|]. apply (bal_app " "); [reflexivity|apply bal_bound; exact Hlo].
 Qed.
 Lemma bal_orderby o : ord_ok o = true -> bal 0 (render_orderby o) = true.
 Proof.
@@ -540,10 +571,10 @@ Proof.
 Qed.
 
 Lemma bal_partition_sql fd :
-  forallb part_ok (fd_partition fd) = true -> forallb ord_ok (fd_orderbys fd) = true ->
+  forallb part_ok (fd_partition fd) = true -> forallb ord_ok (fd_orderbys fd) = true -> frame_ok (fd_frame fd) = true ->
   bal 0 (partition_sql fd) = true.
 Proof.
-  intros Hp Ho.
+  intros Hp Ho Hfok.
   assert (P : bal 0 (join "," (fd_partition fd)) = true).
   { apply bal_join; [reflexivity|]. eapply forallb_impl; [|exact Hp]. intros x Hx. unfold part_ok in Hx.
     apply andb_prop in Hx as [Hx _]. apply andb_prop in Hx as [Hx _]. apply top_bal. exact Hx. }
@@ -558,7 +589,7 @@ Proof.
     - apply bal_app; [apply (bal_app "PARTITION BY "); [reflexivity|exact P]|].
       apply (bal_app " "); [reflexivity|]. apply (bal_app "ORDER BY "); [reflexivity|exact O]. }
   unfold partition_sql. destruct (fd_frame fd) as [f|]; [|exact A].
-  apply bal_app; [exact A|]. apply (bal_app " "); [reflexivity|apply bal_frame].
+  apply bal_app; [exact A|]. apply (bal_app " "); [reflexivity|apply bal_frame; exact Hfok].
 Qed.
 
 Theorem render_balanced fd args :
@@ -567,7 +598,7 @@ Theorem render_balanced fd args :
 Proof.
   intros Ht Hc Ha.
   destruct (texts_ok_parts fd Ht) as [Hn [Hsc [Hsp [Hfl [Hpa [Hor Hb]]]]]].
-  destruct (combo_ok_parts fd Hc) as [Hne Hfr].
+  destruct (combo_ok_parts fd Hc) as [Hne Hfr]. pose proof (texts_ok_frame fd Ht) as Hfok.
   unfold balanced. apply bal_app.
   { unfold schema_part, schema_ok in *. destruct (fd_schema fd) as [sc|]; [|reflexivity].
     apply andb_prop in Hsc as [S1 S2]. apply bal_app; [apply bal_nochar; assumption|reflexivity]. }
@@ -587,11 +618,11 @@ Proof.
   apply bal_app; [exact J|].
   apply bal_app.
   - unfold filter_part. destruct (fd_include_filter fd); [|reflexivity].
-    pose proof (bal_paren ("WHERE " ++ join " AND " (fd_filters fd))) as K.
-    replace (" FILTER(WHERE " ++ join " AND " (fd_filters fd) ++ ")")
-      with (" FILTER" ++ "(" ++ ("WHERE " ++ join " AND " (fd_filters fd)) ++ ")") by (rewrite !sapp_assoc; reflexivity).
+    pose proof (bal_paren ("WHERE " ++ filters_text (fd_filters fd))) as K.
+    replace (" FILTER(WHERE " ++ filters_text (fd_filters fd) ++ ")")
+      with (" FILTER" ++ "(" ++ ("WHERE " ++ filters_text (fd_filters fd)) ++ ")") by (rewrite !sapp_assoc; reflexivity).
     apply (bal_app " FILTER"); [reflexivity|]. apply K.
-    apply (bal_app "WHERE "); [reflexivity|]. apply top_bal. apply top_join_and; auto.
+    apply (bal_app "WHERE "); [reflexivity|]. apply top_bal. apply top_filters_text; auto.
   - unfold over_part. destruct (fd_include_over fd); [|reflexivity].
     change (" OVER(" ++ partition_sql fd ++ ")") with (" OVER" ++ "(" ++ partition_sql fd ++ ")").
     apply (bal_app " OVER"); [reflexivity|]. apply bal_paren. apply bal_partition_sql; assumption.
